@@ -960,6 +960,82 @@ def spec_routes_width(ctx, make_exe):
             raise Inconclusive("render_with_context not reached in %s" % meth)
     return {"functions": fnames, "paths": total}
 
+# ----------------------------------------------------------------------------
+# SPEC: block prefixes are measured by display width in the render arms (custom decorators)
+# ----------------------------------------------------------------------------
+
+def _prefix_arm(ctx, make_exe, prefix_call, what):
+    f = the(ctx.find(r"^do_render_node$", debug=["size_estimate", "renderer", "tree"]), "do_render_node")
+    se_local = int(f.debug["size_estimate"][1:])
+    entry = None
+    for name in f.order:
+        if f.blocks[name].cleanup:
+            continue
+        t = f.blocks[name].term
+        if t and t[0] == "call" and re.search(r"as Renderer>::%s$" % prefix_call, t[2].strip()):
+            entry = name
+            break
+    if entry is None:
+        raise Inconclusive("no call to %s in do_render_node" % prefix_call)
+    exe = make_exe(loop_bound=3)
+    st = State()
+    size = exe.fresh("usize", "est.size")
+    minw = exe.fresh("usize", "est.min_width")
+    psize = exe.fresh("usize", "est.prefix_size")
+    plen = exe.fresh("usize", "prefix.len")       # String::len: bytes
+    pwidth = exe.fresh("usize", "prefix.width")   # UnicodeWidthStr::width: columns
+    # what calc_size_estimate guarantees: prefix_size is the prefix's display width and is part of min_width;
+    # a string is at least as long in bytes as it is wide in columns / 2 ... only width <= 2*len and len <= 4*chars hold;
+    # we only use: both are < 2^32
+    st.pc += [psize.e == pwidth.e, z3.UGE(minw.e, psize.e), z3.ULE(plen.e, u64(1 << 32)), z3.ULE(pwidth.e, u64(1 << 32)),
+              z3.ULE(minw.e, u64(1 << 40))]
+    est = _estimate(ctx, size, minw, psize)
+    import summaries
+    orig = summaries.summarize
+
+    def summ(exe_, st_, f_, bb_, callee, args, dest_ty):
+        c = callee.strip()
+        if re.search(r"as Renderer>::%s$" % prefix_call, c):
+            return [(st_, VOpaque("String", "the_prefix"))]
+        if re.search(r"^String::len$", c):
+            return [(st_, plen)]
+        if re.search(r"UnicodeWidthStr>::width$", c):
+            return [(st_, pwidth)]
+        if re.search(r"SubRenderer::<\w+>::width_minus$", c):
+            return []  # observed; the slice ends here
+        return orig(exe_, st_, f_, bb_, callee, args, dest_ty)
+    summaries.summarize = summ
+    try:
+        # record states at the width_minus call through the call log of ended paths
+        ended = []
+        real_call = exe.call
+
+        def call_hook(st_, f_, bb_, callee, args, dest_ty):
+            if re.search(r"SubRenderer::<\w+>::width_minus$", callee.strip()):
+                ended.append((st_.clone(), args))
+            return real_call(st_, f_, bb_, callee, args, dest_ty)
+        exe.call = call_hook
+        exe.run(f.name, {}, st, entry=entry, env_overrides={se_local: est})
+    finally:
+        summaries.summarize = orig
+    if not ended:
+        raise Inconclusive("width_minus not reached from the %s call" % prefix_call)
+    for (s2, args) in ended:
+        a1, a2 = args[1], args[2]
+        if not (isinstance(a1, VInt) and isinstance(a2, VInt)):
+            raise Inconclusive("width_minus arguments are not integers")
+        post(exe, s2, a1.e == pwidth.e, f.name, "%s: the width taken from the parent is the prefix's display width" % what)
+        post(exe, s2, a2.e == minw.e - pwidth.e, f.name, "%s: the content keeps its estimated minimum width" % what)
+    return {"function": f.name, "entry": entry}
+
+
+def spec_prefix_width_quote(ctx, make_exe):
+    return _prefix_arm(ctx, make_exe, "quote_prefix", "blockquote")
+
+
+def replay_prefix_width(fd, vals, info):
+    return {"harness": "m_prefix_width", "values": [[0]]}
+
 
 ALL = [
     Spec("table_col_width", ["C06", "C02", "C01"], spec_table_col_width,
@@ -1003,6 +1079,12 @@ ALL = [
          functions=["Config::render_to_string", "Config::render_to_lines", "Config::string_from_read", "Config::lines_from_read"],
          bounds="any width; success path of every `?`",
          assumptions=["callees are observed (arguments captured), not executed"]),
+    Spec("prefix_width_quote", ["C16", "C01"], spec_prefix_width_quote,
+         functions=["do_render_node (BlockQuote arm: from quote_prefix() to width_minus())"],
+         bounds="estimate and prefix lengths any usize < 2^32 / 2^40; the prefix's byte length and display width are independent values",
+         assumptions=["calc_size_estimate's guarantee: prefix_size = display width of the prefix, min_width >= prefix_size",
+                      "String::len and UnicodeWidthStr::width return unrelated integers (a custom decorator may return any string)"],
+         replay=replay_prefix_width),
     Spec("table_alloc_2col", ["C06", "C02", "C05", "C01"], spec_table_alloc_2,
          functions=["render_table_tree (whole function incl. estimate loop, allocation closures, shrink loop)",
                     "RenderTable::rows", "RenderTableRow::cells", "RenderTableCell::get_size_estimate", "SizeEstimate::max",
